@@ -116,19 +116,20 @@ type spec struct {
 	// twist makes one import incompatible / missing
 	twist string
 	// segments
-	dataSeg     bool
-	oobSeg      bool
-	elemSeg     bool
-	elemImp     bool // the element segment's item is the first IMPORTED function instead of the module's own id
-	aliasImp    bool // the mutable i32 global is imported a second time under another index
-	capMut      bool // a private global is initialised with global.get of the imported mutable i32 global
-	elemNull    bool // the element segment has a second item, ref.null, which clears the slot after the first
-	ownInit     bool // own mutable i32 global initialised from the imported immutable global
-	start       int  // 0 none, 1 writes cell 31, 2 writes then traps
-	constVal    int32
-	memMin      int  // declared minimum of the memory import (0 = 1 page)
-	tabMin      int  // declared minimum of the table import (0 = the initial size)
-	noTabExport bool // an imported table is not re-exported by this module
+	dataSeg        bool
+	oobSeg         bool
+	elemSeg        bool
+	elemImp        bool // the element segment's item is the first IMPORTED function instead of the module's own id
+	aliasImp       bool // the mutable i32 global is imported a second time under another index
+	aliasOtherName bool // ... through the exporter's second export name of the same global
+	capMut         bool // a private global is initialised with global.get of the imported mutable i32 global
+	elemNull       bool // the element segment has a second item, ref.null, which clears the slot after the first
+	ownInit        bool // own mutable i32 global initialised from the imported immutable global
+	start          int  // 0 none, 1 writes cell 31, 2 writes then traps
+	constVal       int32
+	memMin         int  // declared minimum of the memory import (0 = 1 page)
+	tabMin         int  // declared minimum of the table import (0 = the initial size)
+	noTabExport    bool // an imported table is not re-exported by this module
 }
 
 func (s *spec) describe() string {
@@ -246,7 +247,12 @@ func build(s *spec, specs []*spec) []byte {
 	// the same exported global imported a second time: both import indexes name one object
 	aliasG := -1
 	if s.aliasImp && s.gFrom[gI32] >= 0 && effMut[gI32] && effType[gI32] == wasmb.I32 && !strings.HasPrefix(s.twist, "global-") {
-		m.Imports = append(m.Imports, wasmb.Import{Module: modName(s.gFrom[gI32]), Name: fmt.Sprintf("g%d", gI32), Kind: wasmb.KindGlobal, GlobalType: wasmb.I32, GlobalMut: true})
+		// ... under the same export name, or under the second name every module exports the global with
+		aliasName := fmt.Sprintf("g%d", gI32)
+		if s.aliasOtherName {
+			aliasName = fmt.Sprintf("g%dbis", gI32)
+		}
+		m.Imports = append(m.Imports, wasmb.Import{Module: modName(s.gFrom[gI32]), Name: aliasName, Kind: wasmb.KindGlobal, GlobalType: wasmb.I32, GlobalMut: true})
 		aliasG = int(nImpG)
 		nImpG++
 	}
@@ -317,6 +323,8 @@ func build(s *spec, specs []*spec) []byte {
 	for k := 0; k < nGlobals; k++ {
 		m.Exports = append(m.Exports, wasmb.Export{Name: fmt.Sprintf("g%d", k), Kind: wasmb.KindGlobal, Idx: gidx[k]})
 	}
+	// the mutable i32 global is exported under a second name too (one object, two names)
+	m.Exports = append(m.Exports, wasmb.Export{Name: fmt.Sprintf("g%dbis", gI32), Kind: wasmb.KindGlobal, Idx: gidx[gI32]})
 	m.Exports = append(m.Exports, wasmb.Export{Name: "mem", Kind: wasmb.KindMemory, Idx: 0})
 	if !s.noTabExport {
 		m.Exports = append(m.Exports, wasmb.Export{Name: "tab", Kind: wasmb.KindTable, Idx: 0})
@@ -600,6 +608,7 @@ func (r *runner) instantiate(twisted bool) {
 	s.elemNull = s.elemSeg && t.Chance(1, 3)
 	s.capMut = t.Chance(1, 2)
 	s.aliasImp = t.Chance(1, 2)
+	s.aliasOtherName = t.Chance(1, 2)
 	s.elemImp = t.Chance(1, 3)
 	s.ownInit = t.Chance(1, 2)
 	s.start = t.Weighted(6, 2, 1)
